@@ -200,9 +200,15 @@ func genHistory(t *rapid.T, o jGenOpts) (*History, map[string]int) {
 	ops := map[string]int{}
 	day := int64(1_700_006_400) // 2023-11-15T00:00:00Z
 	maxStops := 5
+	huge := 0
 	if rapid.IntRange(0, 19).Draw(t, "sizeClass") == 0 {
 		n := rapid.SampledFrom([]int{17, 33, 70, 130, 260}).Draw(t, "sizeN")
-		switch rapid.IntRange(0, 2).Draw(t, "sizeWhat") {
+		switch rapid.IntRange(0, 3).Draw(t, "sizeWhat") {
+		case 3:
+			// thousands of trips in the history (beyond any fixed table or pruning threshold), few feeds, short stop lists
+			huge = rapid.SampledFrom([]int{1030, 2100, 4100, 4200, 8300}).Draw(t, "hugeN")
+			o.MaxTrips, o.MaxFeeds, maxStops = huge, min(o.MaxFeeds, 5), 1
+			ops["huge-history"]++
 		case 0:
 			o.MaxTrips = n
 		case 1:
@@ -213,6 +219,9 @@ func genHistory(t *rapid.T, o jGenOpts) (*History, map[string]int) {
 		ops["size-class"]++
 	}
 	nT := rapid.IntRange(1, o.MaxTrips).Draw(t, "nTrips")
+	if huge > 0 {
+		nT = huge
+	}
 	suffixes := []string{"_A..N", "_A..S", "_1..N03R", "_", "_GS.N01R"}
 	for i := 0; i < nT; i++ {
 		d := JTripDesc{RouteID: rapid.SampledFrom([]string{"A", "1", "GS", ""}).Draw(t, "route"), Dir: rapid.IntRange(0, 2).Draw(t, "dir"),
@@ -226,7 +235,7 @@ func genHistory(t *rapid.T, o jGenOpts) (*History, map[string]int) {
 		}
 		suffix := rapid.SampledFrom(suffixes).Draw(t, "suffix")
 		d.ID = fmt.Sprintf("%06d%s", rapid.SampledFrom([]int{0, 6000, 6001, 143950}).Draw(t, "origin"), suffix)
-		if !o.Collisions {
+		if !o.Collisions || huge > 0 {
 			d.ID = fmt.Sprintf("%06d%s%d", (1000*i)%600000, suffix, i) // distinct suffix per trip
 		} else if i > 0 && rapid.IntRange(0, 2).Draw(t, "collide") == 0 {
 			// same start instant and suffix as an earlier trip, but a different identifier: the UIDs collide
@@ -237,6 +246,9 @@ func genHistory(t *rapid.T, o jGenOpts) (*History, map[string]int) {
 		// the pool holds distinct trip identifiers
 		dup := false
 		for _, e := range h.Pool {
+			if huge > 0 {
+				break
+			}
 			if e == d {
 				dup = true
 			}
@@ -496,7 +508,12 @@ func propC15(t *rapid.T) {
 	sort.Strings(cls)
 	c15Rec.Eval(dedupe(cls)...)
 	if len(h.Pool) >= 2 && (ops["reappear"] > 0 || ops["unassigned-then-assigned"] > 0 || ops["assigned-then-unassigned-update"] > 0 || ops["boundary-window"] > 0) {
-		c15Rec.NontrivialCase(vt.Fingerprint(h), func() any { return h })
+		c15Rec.NontrivialCase(vt.Fingerprint(h), func() any {
+			if len(h.Pool) > 40 {
+				return map[string]any{"trips_total": len(h.Pool), "feeds": len(h.Feeds), "window": []int64{h.WindowStart, h.WindowEnd}, "first_trips": h.Pool[:3]}
+			}
+			return h
+		})
 	}
 	vt.Run(t, c15Rec, *h, checkC15)
 }
@@ -683,7 +700,12 @@ func propC14(t *rapid.T) {
 	sort.Strings(cls)
 	c14Rec.Eval(cls...)
 	if len(h.Feeds) >= 3 && ops["front-shrink"] > 0 && (ops["reroute"] > 0 || ops["growth"] > 0) {
-		c14Rec.NontrivialCase(vt.Fingerprint(h), func() any { return h })
+		c14Rec.NontrivialCase(vt.Fingerprint(h), func() any {
+			if len(h.Pool) > 40 {
+				return map[string]any{"trips_total": len(h.Pool), "feeds": len(h.Feeds), "window": []int64{h.WindowStart, h.WindowEnd}, "first_trips": h.Pool[:3]}
+			}
+			return h
+		})
 	}
 	vt.Run(t, c14Rec, *h, checkC14)
 }
